@@ -308,7 +308,7 @@ def documents(ctx, with_model=False):
             g.count("glencoe_group_flags", f"{len(keep)} optional of {len(kids)}")
             yield ("group-flags", d, m) if with_model else ("group-flags", d)
         d = copy.deepcopy(doc)
-        kind = rng.randrange(10)
+        kind = rng.randrange(11)
         g.count("glencoe_malformed", kind)
         ids = list(d["features"])
         if kind == 0:
@@ -334,4 +334,8 @@ def documents(ctx, with_model=False):
             d["features"][rng.choice(ids)]["type"] = rng.choice(["AND", "feature", "Xor", "", None, 3])
         elif kind in (8, 9):
             d["features"][rng.choice(ids)]["name"] = rng.choice([None, 7, ["x"]])
+        elif kind == 10:
+            gen_ids = [i_ for i_ in ids if d["features"][i_]["type"] == "GENOR"]
+            if gen_ids:
+                d["features"][rng.choice(gen_ids)][rng.choice(["min", "max"])] = rng.choice([1.0, "1", True, None])
         yield ("malformed", d, m) if with_model else ("malformed", d)
